@@ -17,9 +17,15 @@ def policy_table(policy, states):
 def check_reuse(ctx, name, make, run, summarize, problem_a, problem_b):
     """make() -> fresh object; run(obj, problem) -> result; summarize(result, problem) -> JSON-able."""
     used = make()
-    ctx.call(f"{name}.first_call_raises", run, used, problem_a)
+    r_first = ctx.call(f"{name}.first_call_raises", run, used, problem_a)      # (deliberately not looked at yet)
     r_used = ctx.call(f"{name}.second_call_raises", run, used, problem_b)
     r_fresh = ctx.call(f"{name}.fresh_call_raises", run, make(), problem_b)
     d1, d2 = digest(summarize(r_used, problem_b)), digest(summarize(r_fresh, problem_b))
     ctx.check(d1 == d2, f"{name}.result_depends_on_earlier_use_of_the_object",
               lambda: f"reused object: {d1[:400]}\nfresh object:  {d2[:400]}")
+    # ... and the other way round: what the first call returned belongs to the first problem - read only now, after the
+    # object has been used again, it must still be what a fresh object returns for the first problem
+    r_fresh_a = ctx.call(f"{name}.fresh_call_raises", run, make(), problem_a)
+    d3, d4 = digest(summarize(r_first, problem_a)), digest(summarize(r_fresh_a, problem_a))
+    ctx.check(d3 == d4, f"{name}.earlier_result_changed_by_later_use_of_the_object",
+              lambda: f"first result, read after the second call: {d3[:400]}\nfresh object on the first problem: {d4[:400]}")
